@@ -276,9 +276,16 @@ func runNodesResp(o *Out, r *rand.Rand, thorough bool, _ []string) {
 		}
 		nd := startNode(mn, r, nodeOpts{ip: net.IP{34, 50, 60, byte(70 + round)}, port: 9100 + round, utpLimit: 10, restrict: restrict})
 		senderIPs := []net.IP{{34, 77, 1, 1}, {192, 168, 3, 3}, {127, 0, 0, 9}}
+		// one peer per round really is on the network: a third of the cases go through the whole round trip (the request is
+		// encoded and sent, the scripted NODES message comes back over discv5) instead of handing the reply to the filter
+		wirePeer := startScriptedPeer(mn, r, net.IP{34, 78, 2, byte(1 + round)}, 9150+round, portalwire.History)
 		for c := 0; c < perRound; c++ {
 			sip := senderIPs[r.Intn(len(senderIPs))]
 			sender := signRecPad(keyFromSeed(r), sip, 3000+r.Intn(100), 1, 0)
+			viaWire := r.Intn(3) == 0
+			if viaWire {
+				sender = wirePeer.node()
+			}
 			// requested distances
 			req := []uint{} // non-nil: an empty list is a request for zero distances, not "no constraint"
 			pool := []uint{0, 253, 254, 255, 256}
@@ -288,6 +295,9 @@ func runNodesResp(o *Out, r *rand.Rand, thorough bool, _ []string) {
 			}
 			for j := 0; j < nReq; j++ {
 				req = append(req, pool[r.Intn(len(pool))])
+				if r.Intn(5) == 0 {
+					req = append(req, req[len(req)-1]) // the same distance twice in a row
+				}
 			}
 			var recs [][]byte
 			var desc []string
@@ -373,7 +383,16 @@ func runNodesResp(o *Out, r *rand.Rand, thorough bool, _ []string) {
 			if len(desc) == 0 {
 				desc = []string{"-"}
 			}
-			got, err := nd.p.VerifProcessNodes(sender, resp, req)
+			var got []*enode.Node
+			if len(resp) > 1100 {
+				viaWire = false // more than one discv5 packet carries: this reply can only be handed over directly
+			}
+			if viaWire {
+				wirePeer.reply = func([]byte) []byte { return resp }
+				got, err = nd.p.VerifFindNodes(sender, req)
+			} else {
+				got, err = nd.p.VerifProcessNodes(sender, resp, req)
+			}
 			input := fmt.Sprintf("nodesresp req=%s recs=%s", strings.Join(rq, ","), strings.Join(desc, ","))
 			if err != nil {
 				o.Case(input, "error")
@@ -393,6 +412,7 @@ func runNodesResp(o *Out, r *rand.Rand, thorough bool, _ []string) {
 			}
 			o.Case(input, "accepted="+strings.Join(acc, ","))
 		}
+		wirePeer.stop()
 		nd.stop()
 	}
 }
